@@ -57,12 +57,12 @@ claim("C05", "other",
   "writer/reader table agreement + linear entailment on cursor arithmetic + abstract interpretation of the token cursor", "DESIGN.md section 3 C05")
 
 claim("C09", "other",
-  "Table clauses exhaustive over all listed ids (fold-uniqueness under the exact relation strings.EqualFold implements; no id has a case variant beginning with a scanner keyword), code clauses by provenance (the lookup folds and returns list spelling; only list spelling reaches tokens and node fields; later comparisons are between canonical strings; K5: behind a successful lookup/normalisation no scanner branch mentions the raw id text; K6: before recognition the raw id is judged only through the folding lookups, constant-suffix tests and '+' probes (the normalisation resolves into the decision list C08 evaluates)).",
+  "Table clauses exhaustive over all listed ids (fold-uniqueness under the exact relation strings.EqualFold implements; no id has a case variant beginning with a scanner keyword; K0c: the id reader's pattern / byte class admits every listed id whole in all-upper and all-lower case), code clauses by provenance (the lookup folds and returns list spelling; only list spelling reaches tokens and node fields; later comparisons are between canonical strings; K5: behind a successful lookup/normalisation no scanner branch mentions the raw id text; K6: before recognition the raw id is judged only through the folding lookups, constant-suffix tests and '+' probes (the normalisation resolves into the decision list C08 evaluates)).",
   "Operators, reference prefixes and -only/-or-later suffixes are matched case-sensitively by construction and are outside the property. Output casing relies on C06 E3.",
   "exhaustive table lint + provenance of token and node text", "DESIGN.md section 3 C09")
 
 claim("C02", "other",
-  "The pair matcher is inlined into one propositional formula over canonical atoms and decided by exhaustive truth tables: role gates (M1), exception gate and its meaning (M2), symmetry under exchange of the two terms (M3), reflexivity (M4); suffix arithmetic (M5) and the +/no+ cell structure with the direction of 'later' (M6/T7) structurally; the family table the position atoms read is checked exhaustively (T1-T4) together with its readers (T5, T6, T8); X4: Satisfies consults the allowed entries through the two pair matchers only (no index, fast path or side table between a term and an entry).",
+  "The pair matcher is inlined into one propositional formula over canonical atoms and decided by exhaustive truth tables: role gates (M1), exception gate and its meaning (M2), symmetry under exchange of the two terms (M3), reflexivity (M4); M7: for two LicenseRefs the matcher is exactly 'identical LicenseRef id, DocumentRef both absent or both present and identical' with == on the strings (no case folding or coarser comparison); suffix arithmetic (M5) and the +/no+ cell structure with the direction of 'later' (M6/T7) structurally; the family table the position atoms read is checked exhaustively (T1-T4) together with its readers (T5, T6, T8); X4: Satisfies consults the allowed entries through the two pair matchers only (no index, fast path or side table between a term and an entry).",
   "Atoms (string equalities, position comparisons) are treated as independent propositions apart from the identities x==x, EqualFold(x,x), not(x>x); per-pair outcomes over the ~670 ids are value-level and follow only through the table rules. Known finding T2 (MPL-1.0/MPL-1.1) applies.",
   "symbolic inlining to a propositional formula + exhaustive truth tables + table lint", "DESIGN.md section 3 C02")
 
